@@ -89,8 +89,21 @@ fn run(rng: &mut Rng, _idx: u64, tier: Tier) -> CaseOut {
             let body = if rng.coin() { F::Hyb(Hyb::Jump, "x".to_string(), None, Box::new(body)) } else { body };
             F::Hyb(q1, "x".to_string(), outer_dom, Box::new(F::Hyb(q2, "y".to_string(), Some(inner_dom.clone()), Box::new(body))))
         };
-        let a = branch(rng);
-        let b = branch(rng);
+        // half of the time both branches have the same body (a variable-free or one-variable sub-formula then
+        // occurs under two different restrictions)
+        let (a, b) = if rng.coin() {
+            let a = branch(rng);
+            let b = match (&a, branch(rng)) {
+                (F::Hyb(_, _, _, a1), F::Hyb(q1, x, d1, b1)) => match (&**a1, *b1) {
+                    (F::Hyb(_, _, _, body), F::Hyb(q2, y, d2, _)) => F::Hyb(q1, x, d1, Box::new(F::Hyb(q2, y, d2, body.clone()))),
+                    (_, other) => F::Hyb(q1, x, d1, Box::new(other)),
+                },
+                (_, other) => other,
+            };
+            (a, b)
+        } else {
+            (branch(rng), branch(rng))
+        };
         bin(*rng.pick(&[Bin::And, Bin::Or, Bin::Imp, Bin::Xor]), a, b)
     } else {
         gen_formula(rng, &fopts, &net.names)
